@@ -97,13 +97,18 @@ CLAIMS = {
  "C03": dict(
    text="Theorems for every payload and every segmentation into reads of 1..8192 bytes: the binary receive loop hands the sink exactly "
         "the payload, flushes once after the last byte, independent of the segmentation; the ASCII path delivers dlSpec(payload); a read "
-        "error is reported and nothing is flushed. Correspondence: real ftp::client (in-memory control channel, real loopback data "
+        "error is reported and nothing is flushed. Operation level (C03o.lean): for every payload, segmentation, well-formed reply "
+        "texts and all four methods, download_file / get_file_list in a session that is in step return exactly the three replies, the "
+        "sink / the returned text holds exactly the payload (dlSpec for ASCII), flushed once, no descriptor left, session in step "
+        "again. Correspondence: real ftp::client (in-memory control channel, real loopback data "
         "connections to a scripted peer) x payload sizes around the 8192-byte block x four methods x IPv4/IPv6, listings included.",
    note="TCP delivery itself is trusted; TLS data connections are covered by the C11 stage.", ref="DESIGN.md section 7 C03"),
  "C04": dict(
    text="Theorems for every payload and every short-read pattern of the source: the bytes written to the data connection are exactly the "
         "source bytes (ASCII: ulSpec), blocks never exceed 8192 bytes, the data socket is shut down and closed before the completion reply "
-        "is read, a failed write is reported. Correspondence: real uploads (STOR/STOU/APPE) to the scripted peer, bytes and EOF seen by "
+        "is read, a failed write is reported. Operation level (C04o.lean): for every source content, short-read pattern, verb and all "
+        "four methods the whole upload returns the three replies, the peer has exactly the source bytes, shutdown + close precede the "
+        "completion reply and no write follows them. Correspondence: real uploads (STOR/STOU/APPE) to the scripted peer, bytes and EOF seen by "
         "the peer, event order from libc interposition.",
    note="Back-pressure / partial sends are handled by boost::asio::write (trusted); observed via coalesced send() events.", ref="DESIGN.md section 7 C04"),
  "C12": dict(
